@@ -119,7 +119,7 @@ CHECKS = {
             "design_ref": "DESIGN.md §4 C05",
         },
         "runs": [conc("HarnessC05Quick", ["c05-end"]), conc("HarnessC05Seq", ["c05-end"]),
-                 conc("HarnessC05Thorough", ["c05-end"], ["thorough"]), conc("HarnessC05Three", ["c05-end"], ["thorough"])],
+                 conc("HarnessC05Thorough", ["c05-end"], ["thorough"], maxpaths=1000000, timeout=3000), conc("HarnessC05Three", ["c05-end"], ["thorough"], maxpaths=1000000, timeout=3000)],
         "bounds": {"quick": "2 sources; 1+1 reports with 2 concurrent reads, 2+1 reports without reader; all values symbolic; all schedules",
                    "thorough": "2+2 reports with 2 reads; 3+1 reports with 1 read"},
         "outside": "longer histories; 2^64 serial wrap",
@@ -131,8 +131,9 @@ CHECKS = {
             "note": "both orders of store / registration queued / event queued arise from the scheduler (no hooks); ordering among different registered callbacks within one event is not asserted",
             "design_ref": "DESIGN.md §4 C06",
         },
-        "runs": [conc("HarnessC06Quick", ["c06-end"]), conc("HarnessC06Unregister", ["c06-end"]), conc("HarnessC06Thorough", ["c06-end"], ["thorough"])],
-        "bounds": {"quick": "2 installs, 1 registrar (3 serial modes), optional unregister; all schedules", "thorough": "3 installs, slow callbacks"},
+        "runs": [conc("HarnessC06Quick", ["c06-end"]), conc("HarnessC06Unregister", ["c06-end"]), conc("HarnessC06NoGlobal", ["c06-end"]),
+                 conc("HarnessC06UnregisterShutdown", ["c06-shutdown-end"]), conc("HarnessC06Thorough", ["c06-end"], ["thorough"])],
+        "bounds": {"quick": "2 installs, 1 registrar (3 serial modes), optional unregister; with and without global callbacks; unregister racing with a slow callback and the watcher's Done; all schedules", "thorough": "3 installs, slow callbacks"},
         "outside": "drop-on-overflow (queue of 64 never fills); several registrars",
         "assumptions": CONC_ASSUME,
     },
@@ -155,8 +156,9 @@ CHECKS = {
         },
         "runs": [conc("HarnessC08Quick", ["c08-end"]), conc("HarnessC08Seq2", ["c08-end"]), conc("HarnessC08DoubleUnregister", ["c08-double-unreg-end"]),
                  conc("HarnessC08LateCalls", ["c08-late-end"]), conc("HarnessC08BlockedCallback", ["c08-blocked-end"]), conc("HarnessC08BlockingCancel", ["c08-blocking-cancel-end"]),
+                 conc("HarnessC08TwoWatchers", ["c08-two-watchers-end"]), conc("HarnessC08PendingUnregister", ["c08-pending-unreg-end"]),
                  conc("HarnessC08Thorough", ["c08-end"], ["thorough"], maxpaths=3000000)],
-        "bounds": {"quick": "2 callers x 1 op, 2 sequential ops, 8-op alphabet, delay on/off; all schedules", "thorough": "2+1 ops; blocked-callback run of 67 updates"},
+        "bounds": {"quick": "2 callers x 1 op, 2 sequential ops, 8-op alphabet, delay on/off; two watchers finishing in either order or concurrently; an unregistration pending (optionally behind a stuck callback) at shutdown; all schedules", "thorough": "2+1 ops; blocked-callback run of 67 updates"},
         "outside": "longer operation sequences; more than 2 callers",
         "assumptions": CONC_ASSUME,
     },
